@@ -80,11 +80,16 @@ func checkCalls(root *probe.Impl, calls []*call) {
 
 // callers: concurrent calls through two proxies of one connection and one
 // proxy of a second connection, plus a one-way post.
-func callers(nThreads int, fine bool) func() {
+func callers(nThreads int, fine bool, shared ...bool) func() {
 	return func() {
 		w := fx.Start(bus.Yes{})
 		c1, c2 := w.MustConnect(), w.MustConnect()
 		pA, pB, pC := c1.Probe(1), c1.Probe(1), c2.Probe(1)
+		if len(shared) > 0 && shared[0] {
+			// the two goroutines share ONE proxy object (the ordinary way to
+			// use a proxy from several goroutines)
+			pB = pA
+		}
 		calls := []*call{{name: "echo", arg: 5}, {name: "echo", arg: 7}, {name: "echo", arg: 9}, {name: "slow", arg: 11}}
 		postID := uint32(9001)
 		vrt.Explore()
@@ -600,6 +605,10 @@ func init() {
 		Doc: "an object busy in a gated call; one connection pipelines terminate() + 12 calls (more than its mailbox holds), a second connection one more; then the gate opens"})
 	reg.Register(&reg.Scenario{Property: "C04", Name: "two-callers-statement-level", Body: callers(2, true), Quick: 2, Thorough: 3,
 		Doc: "as two-callers with bus/client.go interleaved at statement level (unsynchronised client state)", MustFlag: []string{"replies-crossed"}})
+	reg.Register(&reg.Scenario{Property: "C04", Name: "two-callers-one-proxy", Body: callers(2, false, true), Quick: 2, Thorough: 3,
+		Doc: "two goroutines call echo(5), slow(11) and echo(7) through one shared proxy object: each gets its own result, each method ran once with its own argument"})
+	reg.Register(&reg.Scenario{Property: "C04", Name: "two-callers-one-proxy-statement-level", Body: callers(2, true, true), Quick: 1, Thorough: 2,
+		Doc: "the same with bus/client.go and bus/proxy.go interleaved at statement level"})
 	reg.Register(&reg.Scenario{Property: "C04", Name: "two-callers", Body: callers(2, false), Quick: 2, Thorough: 3,
 		Doc: "2 goroutines, 2 proxies on one connection: echo(5);slow(11) || echo(7)", MustFlag: []string{"replies-crossed"}})
 	reg.Register(&reg.Scenario{Property: "C04", Name: "three-callers-post", Body: callers(3, false), Quick: 2, Thorough: 3,
